@@ -203,6 +203,10 @@ def run(tier: str, seed: int) -> CheckResult:
     faulty = [build(h, sp, sc, late_b=False, faults=['500'], max_faults=1, delays=False, early_user=False, time_dev=False)
               for h in ([('relist',)], [('spec', 'a', 2)], [('reconnect',), ('status', 'a', 7)], [('status', 'a', 7), ('relist',)])
               for sp in (8.0, 20.0) for sc in script_sets[:2]]
+    # ... and one LIST / WATCH request fails on the connection level (the first LIST of the new process among them, retried after the
+    # client's backoff; a failed PATCH needs a later event to be made up for - C12's subject): the objects found by the listing that finally succeeds are resumed all the same
+    faulty += [build(h, 8.0, sc, late_b=False, faults=['conn'], fault_all=True, fault_methods=['get'], max_faults=1, delays=False, early_user=False, time_dev=False)
+               for h in ([], [('relist',)], [('status', 'a', 7)]) for sc in script_sets[:2]]
     if tier == 'quick':
         groups = [('histories', hist, 0, 60.0), ('timing+kills', timing, 1, 40.0), ('a-rejected-write', faulty, 1, 30.0)]
     else:
